@@ -81,6 +81,8 @@ def run(name, pids, tier='quick'):
                         pass
     finally:
         sh('git -C /repo checkout -- . && git -C /repo clean -fdq')
+        # coq/gen was regenerated from the patched tree: bring it back to the clean tree
+        sh('PYTHONPATH=/repo:%s/tools /venv/bin/python %s/tools/translate.py --out %s/coq/gen' % (VERIF, VERIF, VERIF))
     mp = os.path.join(dst, 'meta.json')
     meta = json.load(open(mp))
     meta.setdefault('checks_run', {}).update({p: res[p] for p in res})
